@@ -67,7 +67,7 @@ func BuildMessageLate(r *rec.Rec) (util.Message, int, error) {
 					}
 				}
 			case *of.NXActionNote:
-				x.Note = append([]byte(nil), a.Bytes("note")...)
+				x.Note = Own(a.Bytes("note"))
 			case *of.NXActionLearn:
 				donor, err := BuildAction(a)
 				if err != nil {
